@@ -350,6 +350,14 @@ func (x *c10World) Apply(op bfs.Op) (fs []bfs.Finding) {
 			}
 		}
 	}
+	if x.dOK && (real.Name == "List" || real.Name == "Signers" || real.Name == "Sign") {
+		// the shim purges out-of-window certificates of the underlying agent while answering (C07); mirror that on the twin
+		for _, k := range append([]uagent.Ident{}, x.d.Keys...) {
+			if i := identsBy[string(k.Blob)]; i != nil && i.cert != nil && !inWindow(i.va, i.vb, w.clock) {
+				x.d.RemoveBlob(k.Blob)
+			}
+		}
+	}
 	if x.dOK && w.ua.Ring.Canon(nameOf) != x.d.Canon(nameOf) {
 		add("passthrough:ground-truth-differs:"+real.Name, fmt.Sprintf("after %s(%s) the underlying agent holds %s; the same calls made directly give %s", op.Name, op.Arg, w.ua.Ring.Canon(nameOf), x.d.Canon(nameOf)))
 	}
@@ -439,11 +447,11 @@ func (x *c10World) connDead() bool {
 
 func checkC10(c *ev.Ctx) {
 	setupFixtures()
-	c.Rule("E1 BFS over histories of the real shimagent.Server (constructed by shimagent.New through the dial seam): AddHardCert(6 incl. plain key, absent key, wire-form key), Add(3), Remove(4), RemoveAll, List, Signers, Sign(7 incl. RSA/ECDSA/Ed25519 and via Signers()), Forward(5 raw bodies, 0..64KiB), and a fault plan as part of the history: at most one (thorough: two) deviation {failure, close, empty, unknown type, truncated, oversized 16MiB+1, huge 2^32-16} at underlying request offset 0/1 (thorough 2) from any point, plus construction faults at request 0 in no-upstream mode; roots = both modes x 2 initial contents + 6 construction-fault roots. non-trivial = operation hit by a fault, or hardware-certificate add/sign/remove, or forward; distinct by (fault, operation, offset)")
+	c.Rule("E1 BFS over histories of the real shimagent.Server (constructed by shimagent.New through the dial seam): AddHardCert(6 incl. plain key, absent key, wire-form key), Add(3), Remove(4), RemoveAll, List, Signers, Sign(7 incl. RSA/ECDSA/Ed25519 and via Signers()), Forward(5 raw bodies, 0..64KiB), and a fault plan as part of the history: at most one (thorough: two) deviation {failure, close, empty, unknown type, truncated, oversized 16MiB+1, huge 2^32-16} at underlying request offset 0/1 (thorough 2) from any point, plus construction faults at request 0 in no-upstream mode; roots = both modes x 4 initial contents (two of them with expired certificates at non-adjacent / adjacent positions, so purging runs inside the operations) + 6 construction-fault roots. non-trivial = operation hit by a fault, or hardware-certificate add/sign/remove, or forward; distinct by (fault, operation, offset)")
 	c.Assume("well-formed replies of the wrong message type are excluded (they make x/crypto's agent client panic by design)", "pass-through is compared with the same calls made directly on a twin keyring until the first fault is consumed")
 	var roots []string
 	for _, mode := range []string{"up", "noup"} {
-		roots = append(roots, mode+":K1,c.cur,Krsa", mode+":K1,K2,y.touch")
+		roots = append(roots, mode+":K1,c.cur,Krsa", mode+":K1,K2,y.touch", mode+":K1,c.past,c.cur,c2.past", mode+":K1,c.past,c2.past,K2")
 	}
 	for _, k := range uagent.AllFaults {
 		roots = append(roots, "noup:K1,c.cur:fault="+k)
